@@ -2,6 +2,6 @@
 # usage: tools/mutsweep/try.sh <survivor-id> <prop>... — apply a stored sweep survivor to a scratch copy and run quick checks
 id=$(printf "%04d" $1); shift
 t=$(mktemp -d /tmp/muttry.XXXXXX); rsync -a --exclude .git /repo/ $t/
-(cd $t && patch -p1 -s < /verif/mutsweep/survivors/$id.diff) || { echo "PATCH DOES NOT APPLY"; rm -rf $t; exit 2; }
+(cd $t && patch -p1 -s < /verif/mutsweep/${SET:-survivors}/$id.diff) || { echo "PATCH DOES NOT APPLY"; rm -rf $t; exit 2; }
 for p in "$@"; do /verif/bin/mdscheck -prop $p -tier quick -repo $t -evidence none 2>&1 | grep -v "^KNOWN-FINDING" | cut -c1-${W:-300}; done
 rm -rf $t
